@@ -207,8 +207,8 @@ Theorem C24_permute_complete : forall x y, PermuteV x y ->
     emitsE (startq lib_defs) n (startq lib_defs (CCall BFS rel_permute [a; b]) st) ans.
 Proof. exact permute_complete. Qed.
 (* the general theorem they instantiate: any program built from ==, !=, domains, constraints, interleaving
-   conjunction / disjunction, fresh, CALLS of recursively defined relations and closure { } blocks (elaborated when they are
-   reached, at the counter of the state they meet), for any definitions and any
+   conjunction / disjunction, fresh, CALLS of recursively defined relations, closure { } blocks and for-loops (both elaborated when
+   they are reached, at the counter of the state they meet), for any definitions and any
    step-indexed value-level reading RelV of the relations that unfolds to the reading of the elaborated
    body (at every counter): no solution is lost *)
 Theorem C24_calls_complete : forall defs (RelV : nat -> nat -> list term -> Prop),
@@ -230,6 +230,10 @@ Theorem C24_member_all_elements : forall x xs, In x xs -> Forall (tb 0) xs ->
   exists ans th' n, MstG th' ans /\ th' 0%nat = x /\
     emitsE (startq lib_defs) n (startq lib_defs (CCall BFS rel_member [TVar 0 false; list_term xs]) (empty_state 1)) ans.
 Proof. exact member_all_elements. Qed.
+(* non-vacuity of the for-loop reading: for x in [1, 2] { x != 3 } *)
+Example C24_for_reading : DenV [] (fun _ _ _ => False) 1 (fun _ => tnum 0)
+  (CEveryg BFS [] 5 [tnum 1; tnum 2] [[GDiseq (TVar 5 false) (tnum 3)]]).
+Proof. exact everyg_reading. Qed.
 (* non-vacuity of the closure reading *)
 Example C24_closure_reading : DenV [] (fun _ _ _ => False) 1 (fun _ => tnum 1) (CClosure BFS [(0%nat, TVar 0 false)] [GEq (TVar 0 false) (tnum 1)]).
 Proof. exact closure_reading. Qed.
